@@ -27,6 +27,13 @@ var plans = map[string]*plan{
 		Rule:   "download queue with the real basic adapter: 1-4 objects (sizes 0..70000), pre-existing .part states (absent, valid prefix, garbage, longer, size-1, exact, 1 byte), garbage at the final path, per-request storage faults (status, body prefix/extra/bitflip/other object/read error, Content-Range variants, no Content-Length, bursts) up to the retry budget, under the gate scheduler. Non-trivial = a fault fired or a decision had >=2 candidates; distinct = distinct full choice trace.",
 		Real:   realA, Stub: stubA,
 		Assume: []string{"a download is 'reported successful' when the object is delivered on Watch(); 'failed' otherwise", "rename failures and other disk errors are outside the statement and not injected"},
+		Extra: &plan{
+			ID: "C02", Engine: "B", Level: "exploration",
+			Stages: []stage{{"C02.custom", 100, 3000}},
+			Rule:   "the custom transfer adapter end to end: `git lfs fetch` of 1-4 objects through a scripted agent process (the orchestrator binary in agent mode), selected by the server's batch answer or as lfs.standalonetransferagent, concurrent or not; per object the agent answers one of ok / same-size bit flip / truncated / extra bytes / path to a missing file / error / completion for another oid / non-JSON / dies; optional stale garbage at the final location; a second fetch with a well-behaved agent. After each fetch: nothing but hash-valid content may appear at a final location, stale files survive failures, exit 0 implies everything needed is validly stored.",
+			Real:   realB, Stub: []string{"the transfer agent: scripted stub process speaking the line-JSON protocol", "LFS server: simulated (batch API only; the agent moves the bytes)"},
+			Assume: []string{"the ssh adapter is not covered (stated, not silently skipped)"},
+		},
 	},
 	"C18": {
 		ID: "C18", Engine: "A", Level: "exploration",
